@@ -143,6 +143,15 @@ fn block_ends_with_return(b: &Block) -> bool {
 }
 
 /// variables assigned (not declared) in a statement list
+/// a block that is exactly `{ break; }`
+fn is_lone_break(b: &syn::Block) -> bool {
+    b.stmts.len() == 1
+        && match &b.stmts[0] {
+            Stmt::Expr(Expr::Break(br), _) => br.label.is_none() && br.expr.is_none(),
+            _ => false,
+        }
+}
+
 fn assigned(ss: &[Stmt], out: &mut Vec<String>) {
     let mut declared: Vec<String> = vec![];
     fn target(e: &Expr) -> Option<String> {
@@ -575,10 +584,27 @@ impl<'a> FnCx<'a> {
                 let (k, kt) = self.stmts(rest, tail)?;
                 Ok((L::Let(Self::vars_pat(&vars), None, Box::new(L::App(name, args)), Box::new(k)), kt))
             }
-            Expr::Loop(lp) => {
-                if !rest.is_empty() {
-                    return Err("loop not in tail position".into());
+            Expr::Loop(lp) if !rest.is_empty() => {
+                // `loop { if c { break; } body }` with no other break is `while !c { body }`
+                let stmts = &lp.body.stmts;
+                let head = match stmts.first() {
+                    Some(Stmt::Expr(Expr::If(i), _)) if i.else_branch.is_none() && is_lone_break(&i.then_branch) => Some(i),
+                    _ => None,
+                };
+                let i = head.ok_or("loop not in tail position")?;
+                let body_rest: Vec<Stmt> = stmts[1..].to_vec();
+                let mut toks = proc_macro2::TokenStream::new();
+                for st in &body_rest {
+                    toks.extend(quote::quote!(#st));
                 }
+                if format!("{}", toks).split(|c: char| !c.is_alphanumeric() && c != '_').any(|w| w == "break" || w == "continue") {
+                    return Err("loop with several exits not in tail position".into());
+                }
+                let c = &i.cond;
+                let w: Expr = syn::parse_quote!(while !(#c) { #(#body_rest)* });
+                self.stmt_expr(&w, rest, tail)
+            }
+            Expr::Loop(lp) => {
                 let mut vars = vec![];
                 assigned(&lp.body.stmts, &mut vars);
                 let (name, caps) = self.loop_def_header(e, &vars);
